@@ -279,6 +279,11 @@ static void op_case(Harness &H, Cmp &C, const std::string &d0, const std::vector
     cmp_spline("X1", X<1>{} * a, [&](size_t j) { return r_x(refarr(a, j, oa + 1), 1, xm(j)); });
     cmp_spline("X2", X<2>{} * a, [&](size_t j) { return r_x(refarr(a, j, oa + 1), 2, xm(j)); });
     cmp_spline("X3", X<3>{} * b, [&](size_t j) { return r_x(refarr(b, j, ob + 1), 3, xm(j)); });
+    if constexpr (oa + ob <= 3) {  // higher powers of the position operator (binomial expansion beyond the small cases)
+      cmp_spline("X5", X<5>{} * a, [&](size_t j) { return r_x(refarr(a, j, oa + 1), 5, xm(j)); });
+      cmp_spline("X6", X<6>{} * b, [&](size_t j) { return r_x(refarr(b, j, ob + 1), 6, xm(j)); });
+      cmp_spline("X4", X<4>{} * a, [&](size_t j) { return r_x(refarr(a, j, oa + 1), 4, xm(j)); });
+    }
     cmp_spline("V", SplineOperator{b} * a, [&](size_t j) { return ivl(a, j) < 0 ? MArr(oa + ob + 1) : r_mul(refarr(b, j, ob + 1), refarr(a, j, oa + 1)); });
     cmp_spline("X1*Dx1-2", (X<1>{} * Dx<1>{} - 2) * a, [&](size_t j) {
       MArr t = r_x(r_dx(refarr(a, j, oa + 1), 1), 1, xm(j)), s = refarr(a, j, oa + 1);
